@@ -62,6 +62,17 @@ class Opt:
         self.tree = tree
 
 
+def retag(tree, suffix: str):
+    """Append a structural key to the tag of every leaf below `tree`."""
+    if isinstance(tree, Opt):
+        tree = tree.tree
+    if isinstance(tree, Leaf):
+        tree.tag = f"{tree.tag}:{suffix}" if tree.tag else suffix
+        return
+    for v in tree.values():
+        retag(v, suffix)
+
+
 def bin3(n: int, th: Tuple[int, int, int]) -> int:
     low, med, high = th
     if n > high:
@@ -118,6 +129,8 @@ class RefReader:
         # kinds of observed component whose source value is non-default while its node is not ON (this step): the
         # situation in which "not ON -> default" actually hides something
         self.masked: set = set()
+        # (host, folder) -> health code published by the last folder scan that ran to completion (signature key only)
+        self.folder_pub: Dict[Tuple[str, str], int] = {}
         self.validate()
 
     # -- config ------------------------------------------------------------------------------------------------------
@@ -164,6 +177,7 @@ class RefReader:
 
     def new_episode(self):
         self.nmne_mem = {}
+        self.folder_pub = {}
 
     # -- the reading -------------------------------------------------------------------------------------------------
 
@@ -260,6 +274,8 @@ class RefReader:
                 out["users"] = users
             else:
                 out["users"] = Opt(users)
+        if node is not None and not on:
+            retag(out, "not-on")
         return out
 
     @staticmethod
@@ -341,7 +357,17 @@ class RefReader:
 
         out: Dict[Any, Any] = {}
         codes = [fs_code(f) for f in folders] or [0]
-        out["health_status"] = Leaf(codes[0], tag=tag, alt=tuple(codes[1:]))
+        ftag = tag
+        if fc is not None and node is not None and requires_scan:
+            # structural key for the signature: did the visible value come from a completed *folder* scan, or was it
+            # set by something else (the node's OS scan refreshes visible statuses too)?
+            key = (node.config.hostname, fc["folder_name"])
+            for f in every[:1]:
+                if getattr(f, "_scanned_this_step", False):
+                    self.folder_pub[key] = FS_HEALTH[f.visible_health_status.name]
+            if folders and codes[0] != self.folder_pub.get(key, 0):
+                ftag = tag + ":not-by-folder-scan"
+        out["health_status"] = Leaf(codes[0], tag=ftag, alt=tuple(codes[1:]))
         if nfiles:
             files = {}
             for i in range(nfiles):
